@@ -38,26 +38,39 @@ class SchedTimeout(Exception):
 
 class Trace:
     def __init__(self):
-        self.log = []           # (tid, op, sid, cls, answer, func)
+        self.log = []           # (tid, op, sid, cls, answer, func)      working-set accesses only
+        self.glog = []          # (tid, op, key, answer, msd)            working-set AND memo-table accesses, global order
         self.on = False
         self.tid_of = {}        # threading.get_ident() -> logical thread id
         self.next_sid = 1
         self.installed = False
         self.is_local = None    # is already_generating a TracingLocal?
         self.patched_modules = []
+        self.pending = {}
+        self.dwc_patched = False   # MultiStrategyDispatch.dispatch_without_caching is the tracing wrapper
 
     def tid(self):
         return self.tid_of.get(threading.get_ident(), 1000)   # 1000 = the main (harness) thread
 
     def rec(self, op, sid, cls, ans, func=""):
         if self.on:
-            self.log.append((self.tid(), op, sid, cls, ans, func))
+            t = self.tid()
+            self.log.append((t, op, sid, cls, ans, func))
+            self.glog.append((t, op, cls, ans, sid))
+
+    def grec(self, op, key, ans, msd):
+        """a memo-table access (`lru` read, `lruw` write, `dwc`/`dwce`/`dwcx` start / end / exceptional end of
+        dispatch_without_caching, `dget`/`dset`/`dclr` on _direct_dispatch, `cclr` = cache_clear)"""
+        if self.on:
+            self.glog.append((self.tid(), op, key, ans, msd))
 
     def start(self):
         """Start a fresh log.  If the calling thread's slot is not empty (an implementation that keeps an empty
         set instead of deleting the attribute is just as good), the log starts with a synthetic `set` event so
         that the replay begins from the real state."""
         self.log = []
+        self.glog = []
+        self.pending = {}       # logical thread id -> stack of [unconsumed?, typ] cells of calls through an LruProxy
         self.on = True
         ag = getattr(sys.modules.get("cattrs.gen._consts"), "already_generating", None)
         if isinstance(ag, TracingLocal):
@@ -137,6 +150,9 @@ class TracingSet(set):
     __hash__ = None
 
 
+_standins = {}      # id(plain set) -> (the plain set, kept alive; its tracing stand-in)
+
+
 class TracingLocal(_orig_local):
     """threading.local that logs get/set/delete of the attribute `working_set`."""
 
@@ -154,6 +170,18 @@ class TracingLocal(_orig_local):
         return v
 
     def __setattr__(self, name, value):
+        if name == "working_set" and type(value) is set:
+            # a plain set (`set(union_classes) - {cl}` in strategies/_subclasses.py: set difference does not keep the
+            # subclass): store a tracing stand-in -- the code reaches it through the attribute only.  IDENTITY IS
+            # PRESERVED: the same plain object is always replaced by the same stand-in, so a set that an
+            # implementation hands to several threads stays shared between them.
+            ent = _standins.get(id(value))
+            if ent is None or ent[0] is not value:
+                if len(_standins) > 20000:
+                    _standins.clear()
+                ent = (value, TracingSet(value))
+                _standins[id(value)] = ent
+            value = ent[1]
         if name == "working_set" and TRACE.on:
             if isinstance(value, TracingSet):
                 sid = value._id()
@@ -175,6 +203,120 @@ class TracingLocal(_orig_local):
             TRACE.rec("del", 0, None, "attrErr", _caller_name())
             raise
         TRACE.rec("del", 0, None, "unit", _caller_name())
+
+
+# ------------------------------------------------------------------------------------------------ memo-table tracing
+# (corr:C19:GENSCHED)  Nothing under /repo is touched: `dispatch_without_caching` is wrapped on the CLASS after the
+# import (so the `lru_cache` every later converter builds in `MultiStrategyDispatch.__init__` wraps the tracing
+# version), and a converter under test gets, per dispatcher, a proxy around ITS OWN lru wrapper and a tracing dict
+# holding the contents of ITS OWN `_direct_dispatch`.  None of this code is a scheduling point (harness file).
+
+def _make_dwc(orig):
+    def dispatch_without_caching(self, typ):
+        if not TRACE.on:
+            return orig(self, typ)
+        st = TRACE.pending.get(TRACE.tid())
+        via_lru = False
+        if st:
+            cell = st[-1]
+            if cell[0] and cell[1] is typ and cell[2] is self:
+                cell[0] = False          # the pending call through the lru turned out to be a miss
+                via_lru = True
+        TRACE.grec("lru" if via_lru else "dwc", typ, "miss", self)
+        try:
+            r = orig(self, typ)
+        except BaseException as e:
+            TRACE.grec("dwcx", typ, type(e).__name__, self)
+            raise
+        # (through the lru: the C wrapper stores the result right after this return, no scheduling point between)
+        TRACE.grec("lruw" if via_lru else "dwce", typ, "unit", self)
+        return r
+    dispatch_without_caching.__wrapped__ = orig
+    return dispatch_without_caching
+
+
+class LruProxy:
+    """Stands in for `MultiStrategyDispatch.dispatch` (the lru_cache wrapper) of one dispatcher."""
+    __slots__ = ("inner", "msd")
+
+    def __init__(self, inner, msd):
+        self.inner = inner
+        self.msd = msd
+
+    def __call__(self, typ):
+        if not TRACE.on:
+            return self.inner(typ)
+        st = TRACE.pending.setdefault(TRACE.tid(), [])
+        cell = [True, typ, self.msd]
+        st.append(cell)
+        try:
+            r = self.inner(typ)
+        finally:
+            st.pop()
+        if cell[0]:
+            TRACE.grec("lru", typ, "hit", self.msd)
+        return r
+
+    def cache_clear(self):
+        self.inner.cache_clear()
+        TRACE.grec("cclr", None, "unit", self.msd)
+
+    def __getattr__(self, name):
+        return getattr(self.inner, name)
+
+
+class TracingDict(dict):
+    """Stands in for `MultiStrategyDispatch._direct_dispatch` of one dispatcher."""
+    __slots__ = ("msd",)
+
+    def get(self, k, default=None):
+        r = dict.get(self, k, default)
+        TRACE.grec("dget", k, "miss" if r is None else "hit", self.msd)
+        return r
+
+    def __getitem__(self, k):
+        try:
+            r = dict.__getitem__(self, k)
+        except KeyError:
+            TRACE.grec("dget", k, "miss", self.msd)
+            raise
+        TRACE.grec("dget", k, "hit", self.msd)
+        return r
+
+    def __setitem__(self, k, v):
+        dict.__setitem__(self, k, v)
+        TRACE.grec("dset", k, "unit", self.msd)
+
+    def clear(self):
+        dict.clear(self)
+        TRACE.grec("dclr", None, "unit", self.msd)
+
+
+def instrument_converter(conv):
+    """Install the memo-table tracing on both dispatchers of a fresh converter.  Returns False (nothing installed,
+    or partially: the caller must then not use the memo log) if the dispatcher no longer has the shape the tracing
+    relies on -- that is NOT an alarm by itself."""
+    if not TRACE.dwc_patched:
+        return False
+    try:
+        msds = [conv._structure_func, conv._unstructure_func]
+        for msd in msds:
+            inner = msd.dispatch
+            wrapped = getattr(inner, "__wrapped__", None)
+            if isinstance(inner, LruProxy) or not hasattr(inner, "cache_clear") or wrapped is None:
+                return False
+            if getattr(wrapped, "__func__", None) is not type(msd).dispatch_without_caching:
+                return False
+            if type(msd._direct_dispatch) is not dict:
+                return False
+        for msd in msds:
+            msd.dispatch = LruProxy(msd.dispatch, msd)
+            d = TracingDict(msd._direct_dispatch)
+            d.msd = msd
+            msd._direct_dispatch = d
+    except Exception:  # noqa: BLE001
+        return False
+    return True
 
 
 def install_tracing():
@@ -206,6 +348,14 @@ def install_tracing():
             if "already_generating" in d and "set" not in d:
                 mod.set = TracingSet
                 TRACE.patched_modules.append(name)
+    try:
+        msd_cls = sys.modules["cattrs.dispatch"].MultiStrategyDispatch
+        orig = msd_cls.__dict__.get("dispatch_without_caching")
+        if callable(orig) and getattr(orig, "__code__", None) is not None and orig.__code__.co_argcount == 2:
+            msd_cls.dispatch_without_caching = _make_dwc(orig)
+            TRACE.dwc_patched = True
+    except Exception:  # noqa: BLE001 - the dispatcher has another shape: no memo-table log, not an alarm
+        TRACE.dwc_patched = False
     TRACE.installed = True
     return TRACE
 
